@@ -21,6 +21,8 @@
  * (initial + posts begun - admissions) than there are such fibers, it posts once.  So a
  * correct semaphore always lets every script finish, and a lost post shows up as a run that
  * never finishes (status HANG / BUDGET) although enough units were posted. */
+/* many simultaneous waiters (more than 127 / 255: widths of locals and fields) */
+#define VH_MAXF 400
 #include "rtcommon.h"
 #include "fiber_semaphore.h"
 
